@@ -652,6 +652,9 @@ int KSI_SignatureBuilder_createSignatureWithAggregationChain(KSI_SignatureBuilde
 		goto cleanup;
 	}
 
+	/* The chain is entered at the same level as in the source builder. */
+	tmpBuilder->aggrStartLevel = builder->aggrStartLevel;
+
 	res = KSI_SignatureBuilder_appendAggregationChain(tmpBuilder, aggr);
 	if (res != KSI_OK) {
 		KSI_pushError(ctx, res, NULL);
